@@ -322,6 +322,17 @@ func workerMain(t *testing.T) {
 		out := execute(t, sc, true) // the event log of every run is kept until the run is judged (diagnosis of a violation that does not reproduce)
 		// transient real-time artefacts of the one kernel-backed step (see sim.RealTimeDialTimeout): the
 		// scenario is executed again; what persists over the re-executions is the scenario's own behaviour
+		if sc.Mode != "free" && out.W != nil && out.W.PortReused {
+			for again := 0; again < 4 && out.W != nil && out.W.PortReused; again++ {
+				res.Stats["kernel-port-reuse.re-executed"]++
+				out = execute(t, GenScenario(p, spec.Tier, spec.Seed, i), true)
+			}
+			if out.W != nil && out.W.PortReused {
+				res.Runs++
+				res.Inconclusive["kernel-port-reuse"]++
+				continue
+			}
+		}
 		if sc.Mode != "free" && (out.RealTimeDialTimeout() || (out.LeftoverConns() && callFailed(out))) {
 			first := out.LogHash
 			for again := 0; again < 3; again++ {
@@ -373,8 +384,11 @@ func workerMain(t *testing.T) {
 		}
 		if i%detEvery == 0 {
 			out2 := execute(t, GenScenario(p, spec.Tier, spec.Seed, i), true)
+			for again := 0; again < 4 && out2.W != nil && out2.W.PortReused; again++ {
+				out2 = execute(t, GenScenario(p, spec.Tier, spec.Seed, i), true)
+			}
 			res.DetRuns++
-			if out2.LogHash != out.LogHash {
+			if out2.LogHash != out.LogHash && !(out2.W != nil && out2.W.PortReused) {
 				res.DetMismatch = append(res.DetMismatch, i)
 				a, b := out.W.Log.Lines, out2.W.Log.Lines
 				for k := 0; k < len(a) || k < len(b); k++ {
